@@ -191,17 +191,17 @@ Lemma fold_qmin_le l : forall init x, (x = init \/ In x l) -> fold_left qmin l i
 Proof.
   induction l as [|a r IH]; intros init x H; cbn [fold_left].
   - destruct H as [->|[]]. apply Qle_refl.
-  - destruct H as [->|[->|H]].
-    + eapply Qle_trans; [apply IH; left; reflexivity|apply qmin_spec].
-    + eapply Qle_trans; [apply IH; left; reflexivity|apply qmin_spec].
+  - destruct H as [E|[E|H]]; [subst x|subst x|].
+    + eapply Qle_trans; [apply IH; left; reflexivity|apply (proj1 (qmin_spec init a))].
+    + eapply Qle_trans; [apply IH; left; reflexivity|apply (proj2 (qmin_spec init a))].
     + apply IH. right; exact H.
 Qed.
 Lemma fold_qmax_ge l : forall init x, (x = init \/ In x l) -> x <= fold_left qmax l init.
 Proof.
   induction l as [|a r IH]; intros init x H; cbn [fold_left].
   - destruct H as [->|[]]. apply Qle_refl.
-  - destruct H as [->|[->|H]].
-    + eapply Qle_trans; [apply qmax_spec|apply IH; left; reflexivity].
+  - destruct H as [E|[E|H]]; [subst x|subst x|].
+    + eapply Qle_trans; [apply (proj1 (qmax_spec init a))|apply IH; left; reflexivity].
     + eapply Qle_trans; [apply (proj2 (qmax_spec init a))|apply IH; left; reflexivity].
     + apply IH. right; exact H.
 Qed.
@@ -229,4 +229,82 @@ Proof.
   destruct (bounds_of_points_spec _ _ I3) as [_ [_ B3]].
   destruct (bounds_of_points_spec _ _ I4) as [_ [B4 _]].
   repeat split; eapply Qle_trans; eauto.
+Qed.
+
+(** ** the exact meaning of [in_polygon] for the columns of a rectangular geometry: the
+    axis-aligned rectangle with PyTOUGH's vertex order is the half-open box
+    [x0, x1) x [y0, y1) -- such columns tile the plane without overlap *)
+Lemma qlt_compat a b b' : b == b' -> qlt a b = qlt a b'.
+Proof.
+  intro E. destruct (qlt a b') eqn:H.
+  - apply qlt_spec. apply qlt_spec in H. rewrite E. exact H.
+  - apply qlt_false. apply qlt_false in H. rewrite E. exact H.
+Qed.
+
+Lemma crossing_vertical v p1 p2 :
+  px p1 == px p2 -> crossing v p1 p2 = straddles v p1 p2 && qlt (px v) (px p1).
+Proof.
+  intro E. rewrite crossing_eq. destruct (straddles v p1 p2); [|reflexivity]. cbn [andb].
+  apply qlt_compat. unfold xcross.
+  assert (E0 : px (psub p2 p1) == 0) by (unfold psub, px in *; cbn [fst]; lra).
+  rewrite E0. unfold Qdiv. ring.
+Qed.
+Lemma crossing_horizontal v p1 p2 : py p1 == py p2 -> crossing v p1 p2 = false.
+Proof.
+  intro E. rewrite crossing_eq. destruct (straddles v p1 p2) eqn:H; [|reflexivity]. exfalso.
+  unfold straddles in H. apply orb_true_iff in H.
+  destruct H as [H|H]; apply andb_true_iff in H; destruct H as [A B];
+    apply qle_spec in A; apply qlt_spec in B; lra.
+Qed.
+
+Lemma odd_count_xor {A} (f : A -> bool) l :
+  Nat.odd (length (filter f l)) = fold_right (fun e acc => xorb (f e) acc) false l.
+Proof.
+  induction l as [|a r IH]; [reflexivity|]. cbn [filter fold_right].
+  destruct (f a); cbn [length xorb]; [rewrite odd_S, IH; destruct (fold_right _ _ _); reflexivity|rewrite IH; destruct (fold_right _ _ _); reflexivity].
+Qed.
+
+Lemma in_polygon_rectangle x0 y0 x1 y1 pos :
+  x0 < x1 -> y0 < y1 ->
+  in_polygon pos [(x1, y0); (x1, y1); (x0, y1); (x0, y0)] =
+  (qle x0 (px pos) && qlt (px pos) x1) && (qle y0 (py pos) && qlt (py pos) y1).
+Proof.
+  intros Hx Hy. unfold in_polygon. rewrite count_crossings_filter, odd_count_xor.
+  cbn [edges app pairs map fold_right fst snd].
+  set (A := (x1, y0)). set (v := psub pos A).
+  rewrite (crossing_horizontal v (psub (x1, y1) A) (psub (x0, y1) A)) by (unfold psub, A, px, py; cbn [fst snd]; lra).
+  rewrite (crossing_horizontal v (psub (x0, y0) A) (psub A A)) by (unfold psub, A, px, py; cbn [fst snd]; lra).
+  rewrite (crossing_vertical v (psub A A) (psub (x1, y1) A)) by (unfold psub, A, px, py; cbn [fst snd]; lra).
+  rewrite (crossing_vertical v (psub (x0, y1) A) (psub (x0, y0) A)) by (unfold psub, A, px, py; cbn [fst snd]; lra).
+  rewrite !xorb_false_r, xorb_false_l.
+  set (S := qle y0 (py pos) && qlt (py pos) y1).
+  assert (S1 : straddles v (psub A A) (psub (x1, y1) A) = S).
+  { apply eq_iff_eq_true. unfold S, straddles, v, psub, A, px, py. cbn [fst snd].
+    rewrite orb_true_iff, !andb_true_iff, !qle_spec, !qlt_spec. split; [intros [H|H]|intro H; left]; lra. }
+  assert (S3 : straddles v (psub (x0, y1) A) (psub (x0, y0) A) = S).
+  { apply eq_iff_eq_true. unfold S, straddles, v, psub, A, px, py. cbn [fst snd].
+    rewrite orb_true_iff, !andb_true_iff, !qle_spec, !qlt_spec. split; [intros [H|H]|intro H; right]; lra. }
+  rewrite S1, S3.
+  assert (Q1 : qlt (px v) (px (psub A A)) = qlt (px pos) x1).
+  { apply eq_iff_eq_true. unfold v, psub, A, px. cbn [fst]. rewrite !qlt_spec. split; intro; lra. }
+  assert (Q3 : qlt (px v) (px (psub (x0, y1) A)) = qlt (px pos) x0).
+  { apply eq_iff_eq_true. unfold v, psub, A, px. cbn [fst]. rewrite !qlt_spec. split; intro; lra. }
+  rewrite Q1, Q3. clear S1 S3 Q1 Q3.
+  destruct S; cbn [andb xorb]; [|rewrite andb_false_r; reflexivity]. rewrite andb_true_r.
+  destruct (qlt (px pos) x1) eqn:E1, (qlt (px pos) x0) eqn:E0, (qle x0 (px pos)) eqn:E2; try reflexivity; exfalso;
+    try (apply qlt_spec in E1); try (apply qlt_false in E1); try (apply qlt_spec in E0); try (apply qlt_false in E0);
+    try (apply qle_spec in E2); try (apply qle_false in E2); lra.
+Qed.
+
+(** rectangular columns do not overlap: two half-open boxes of a grid whose corner
+    coordinates are ordered contain no common point unless they are the same box *)
+Lemma rectangle_columns_disjoint xa0 ya0 xa1 ya1 xb0 yb0 xb1 yb1 pos :
+  xa0 < xa1 -> ya0 < ya1 -> xb0 < xb1 -> yb0 < yb1 ->
+  (xa1 <= xb0 \/ xb1 <= xa0 \/ ya1 <= yb0 \/ yb1 <= ya0) ->
+  in_polygon pos [(xa1, ya0); (xa1, ya1); (xa0, ya1); (xa0, ya0)] = true ->
+  in_polygon pos [(xb1, yb0); (xb1, yb1); (xb0, yb1); (xb0, yb0)] = true -> False.
+Proof.
+  intros A1 A2 B1 B2 Hsep Ha Hb.
+  rewrite in_polygon_rectangle in Ha by assumption. rewrite in_polygon_rectangle in Hb by assumption.
+  rewrite !andb_true_iff, !qle_spec, !qlt_spec in Ha, Hb. lra.
 Qed.
